@@ -73,3 +73,13 @@ def bounded_fd(pack):
             bad = {'case': row[0], 'observed': 'd(%s)/d(%s) is missing from the assembled matrices (%d such entries)' % (row[1], row[2], len(FD.seen_known))}
     if bad:
         pack.violation(name, {'bounded': True, 'inputs': bad, 'native_cmd': 'contracts/bounded_jacobian_fd.py'})
+    # "the matrices handed to the Newton solvers": the time-domain iteration matrix built from these blocks
+    from contracts import bounded_itm_matrix as BIM
+    name2 = 'C03/andes/routines/daeint.py:calc_jac/bounded:the-matrix-handed-to-the-time-domain-Newton-solver-is-the-derivative-of-its-residual(both-methods)'
+    r = native_guard(pack, name2, BIM.run)
+    if r is not None:
+        n2, bad2 = r
+        pack.bounded.append({'function': 'Trapezoid / BackEuler calc_jac against calc_q (kundur_full after TDS.init)', 'methods': n2, 'counted_as_proved': False,
+                             'kind': 'bounded native'})
+        if bad2:
+            pack.violation(name2, {'bounded': True, 'inputs': bad2, 'native_cmd': 'contracts/bounded_itm_matrix.py'})
